@@ -3,7 +3,7 @@ from registry_common import COMMON_ASSUME
 ENTRY = dict(
         title="Frame-version announcements trigger exactly the needed refreshes",
         design_ref="DESIGN.md section 6 / C15",
-        prop_modules=["C15", "C15Overlap", "C15Devices", "C15Tables"],
+        prop_modules=["C15", "C15Overlap", "C15Cancel", "C15Devices", "C15Tables"],
         technique="Lean 4 theorems about the announcement handler in ANY device state (hence over all announcement histories) "
                   "+ correspondence: sensor-data / regulator-data frames into a real EcoMAX via handle_frame, queue observed after quiescence "
                   "+ Lean judge C15.spec on what the implementation queued",
@@ -36,6 +36,10 @@ ENTRY = dict(
             "whatever unrelated subscribers do": "correspondence (client subscribers on sensor names / frame_versions / sensors / regdata that raise, suspend briefly / over the next message / to the end, unsubscribe themselves, once-subscribers that raise; executor jobs of Request.create completing at once or only when the loop is idle, so that the handler is suspended while its sibling dispatches run); the oracle is the unchanged model and judge",
             "the new version is recorded (public readers)": "correspondence (has_frame_version(kind, version), has_frame_version(kind), supports_frame_type(kind) read after every event against the record the statement prescribes)",
             "known response/message code in an announcement": "outside the statement's quantifier; modelled exactly (callback raises, rest dropped) and tied by correspondence",
+            "one device object shut down and used again (device.shutdown() cancels a refresh suspended in Request.create; a reconnect keeps the device)": "theorem (Props/C15Cancel over every history of "
+                "announcements / frame_errors / task moves in any order / shutdowns at any point: recorded_has_request — a version is on record for a kind only if a request of that kind was queued; "
+                "record_changes_le_requests; shutdown_keeps_records; nothing_moves_after_shutdown; cancelled_then_announced_again) + correspondence (overlap section, op `k`: the real device.shutdown() with executor jobs "
+                "held, further announcements to the same object; machine `c15h` and the statement judges cancel_statement / overlap_statement on the observations)",
             "overlapping announcement dispatches (outside the statement's quantifier)": "theorem about the overlap machine (sequential_exact: no overlap = the sequential model; requests_le_tasks / overlap_at_most_doubles: at most one request per announcement in flight, one record update, final record = announced version; doubled_request_reachable) + correspondence with a HELD executor reproducing the doubled request on the implementation — recorded as an observation, not a violation",
         },
         public_routes=(
